@@ -222,10 +222,18 @@ def run_case(spec, j):
       ref = lambda L: O.mlkr_objective(L, X, ds['t'])      # noqa: E731
     fref = lambda x: ref(x.reshape(k, d))                   # noqa: E731
     evals = rec['evals']
+    EPS_ = np.finfo(float).eps
+    trange = float(np.ptp(ds['t'])) ** 2 if name == 'MLKR' else 1.0
     for e_i, (x, val, g) in enumerate(evals):
       r = fref(x)
-      j.close('C10.%s.value' % name, val, r, 1e-9 * max(abs(r), 1e-3),
-              dict(det, eval=e_i))
+      # the library forms squared distances as |z_i|^2 + |z_j|^2 - 2 z_i.z_j:
+      # each carries a cancellation error of a few eps * max |z|^2, which
+      # the soft-max passes on to every term of the objective (3.8e-6 was
+      # seen at |z|^2 ~ 1e9 on data with exact duplicates: thorough, seed 4)
+      z2 = float((X.dot(x.reshape(k, d).T) ** 2).sum(axis=1).max())
+      j.close('C10.%s.value' % name, val, r,
+              1e-9 * max(abs(r), 1e-3) + 32 * EPS_ * z2 * len(X) * trange,
+              dict(det, eval=e_i, max_embedded_norm_sq=z2))
     pick = [0] + [i for i in range(1, len(evals)) if rng.rand() < 0.25][:2]
     for e_i in pick:
       x, val, g = evals[e_i]
